@@ -19,7 +19,8 @@ LEVEL = ('decides the structural discipline of the branching module: every varia
          'shape of a 5-value universe (N10). ProportionalDomainSize indexes its variables only through'
          ' the weight→variable map (N11 INDEX-SPACE). SparseSet insert/remove keep the index map '
          'consistent on every path (N7b); view contains applies the inverse map (N12 = C12-V1d); life-'
-         'cycle bundle (NL<n>). Does not decide undecidedness for every domain shape')
+         'cycle bundle (NL<n>). Selectors with a tie-breaker leave only through its select (N13 MUST-'
+         'PASS). Does not decide undecidedness for every domain shape')
 TECHNIQUE = "static analysis: FORWARD-ALL / OVERRIDE⇒DECLARE sibling rules, dominance and shape tables over rustc MIR"
 
 TRAITS = {"Brancher": "branching::brancher::Brancher",
